@@ -9,4 +9,4 @@ git -C $wt checkout -q -- . ; git -C $wt clean -fdq
 ( cd $wt && { git apply /verif/$1/patch.diff 2>/dev/null || patch -p1 -F3 -s --no-backup-if-mismatch < /verif/$1/patch.diff; } ) || { echo "patch does not apply"; exit 2; }
 shift
 prop=$1; shift
-bin/wzcheck -repo $wt -prop $prop "$@"
+${WZ:-bin/wzcheck} -repo $wt -prop $prop "$@"
